@@ -5,6 +5,7 @@ import (
 	"encoding/json"
 	"fmt"
 	"math/rand"
+	"net"
 	"net/http"
 	"sort"
 	"strconv"
@@ -89,13 +90,14 @@ type lifeSim struct {
 	ls      map[string]*lsn
 	exp     map[string]bool
 	out     []*Step
+	slowStop bool
 	stopped bool
 }
 
-func newLifeSim(connE1, connE2, expConn []string) (*lifeSim, error) {
+func newLifeSim(connE1, connE2, expConn []string, slowStop bool) (*lifeSim, error) {
 	// threshold 0: the periodic rebalancer is not started; Rebalance() is called by the scenario.
 	// The upstream port is authenticated: some listeners present a token with an expiry (an hour away).
-	n, err := psim.StartNode(psim.NodeOpts{ID: "a", UpstreamAuth: &auth.Config{HMACSecretKey: "secret"},
+	n, err := psim.StartNode(psim.NodeOpts{ID: "a", UpstreamAuth: &auth.Config{HMACSecretKey: "secret"}, GracePeriod: 600 * time.Millisecond,
 		Rebalance: &config.RebalanceConfig{Threshold: 0, ShedRate: 1, MinConns: 1}})
 	if err != nil {
 		return nil, err
@@ -105,7 +107,7 @@ func newLifeSim(connE1, connE2, expConn []string) (*lifeSim, error) {
 		n.Stop()
 		return nil, err
 	}
-	s := &lifeSim{n: n, peer: peer, ls: map[string]*lsn{}, exp: map[string]bool{}}
+	s := &lifeSim{n: n, peer: peer, ls: map[string]*lsn{}, exp: map[string]bool{}, slowStop: slowStop}
 	for _, c := range expConn {
 		s.exp[c] = true
 	}
@@ -353,6 +355,15 @@ func (s *lifeSim) do(cmd []interface{}) error {
 		time.Sleep(80 * time.Millisecond) // the other sessions that were shed reconnect within their first backoff
 		s.observe(&Step{Ev: "shed"})
 	case "DoStop":
+		if s.slowStop {
+			// a client that is part-way through sending a request on the upstream port when the node stops:
+			// the HTTP server's shutdown uses up the grace period waiting for it
+			if c, err := net.DialTimeout("tcp", s.n.UpstreamAddr(), time.Second); err == nil {
+				_, _ = c.Write([]byte("GET /piko/v1/upstream/e1 HTTP/1.1\r\nHost: slow-client\r\nUpgrade: websocket\r\n"))
+				defer c.Close()
+				time.Sleep(20 * time.Millisecond)
+			}
+		}
 		s.n.Stop()
 		s.stopped = true
 		s.observe(&Step{Ev: "stop"})
@@ -382,8 +393,8 @@ func (s *lifeSim) randomCmd(rng *rand.Rand) []interface{} {
 }
 
 // runLife: one scenario (a command list from the model's state graph, or a seeded random one).
-func runLife(connE1, connE2, expConn []string, cmds [][]interface{}, rng *rand.Rand, depth int) ([]*Step, error) {
-	s, err := newLifeSim(connE1, connE2, expConn)
+func runLife(connE1, connE2, expConn []string, cmds [][]interface{}, rng *rand.Rand, depth int, slowStop bool) ([]*Step, error) {
+	s, err := newLifeSim(connE1, connE2, expConn, slowStop)
 	if err != nil {
 		return nil, err
 	}
@@ -451,7 +462,7 @@ func runC16(sf *sched, seed int64, emit emitter) error {
 			if jobs[i].rng != nil {
 				depth = 10 + jobs[i].rng.Intn(10)
 			}
-			results[i], errs[i] = runLife(sf.ConnE1, sf.ConnE2, sf.ExpConn, jobs[i].cmds, jobs[i].rng, depth)
+			results[i], errs[i] = runLife(sf.ConnE1, sf.ConnE2, sf.ExpConn, jobs[i].cmds, jobs[i].rng, depth, i%3 == 0)
 		}(i)
 	}
 	wg.Wait()
@@ -468,22 +479,29 @@ func runC16(sf *sched, seed int64, emit emitter) error {
 
 // runExpiry: a connection authenticated with an expiring token is closed by
 // the server at that expiry, not before - unless disconnect-on-expiry is off.
-func runExpiry(disabled bool, emit emitter) error {
+// With tenant: the connection is authenticated under a tenant of the upstream port's tenant table.
+func runExpiry(disabled bool, tenant string, emit emitter) error {
 	ac := auth.Config{HMACSecretKey: "secret", DisableDisconnectOnExpiry: disabled}
-	n, err := psim.StartNode(psim.NodeOpts{ID: "a", Auth: ac})
+	opts := psim.NodeOpts{ID: "a", Auth: ac}
+	secret := "secret"
+	if tenant != "" {
+		secret = "tenant-secret"
+		opts.Tenants = []config.TenantConfig{{ID: tenant, Auth: auth.Config{HMACSecretKey: secret, DisableDisconnectOnExpiry: disabled}}}
+	}
+	n, err := psim.StartNode(opts)
 	if err != nil {
 		return err
 	}
 	defer n.Stop()
 	exp := time.Now().Truncate(time.Second).Add(2 * time.Second)
-	tok := psim.HMACToken("secret", exp, nil)
-	never := psim.HMACToken("secret", time.Time{}, nil)
-	u, err := psim.Listen(context.Background(), n.UpstreamAddr(), "e1", "u-exp", tok, "")
+	tok := psim.HMACToken(secret, exp, nil)
+	never := psim.HMACToken(secret, time.Time{}, nil)
+	u, err := psim.Listen(context.Background(), n.UpstreamAddr(), "e1", "u-exp", tok, tenant)
 	if err != nil {
 		return err
 	}
 	defer u.Shutdown()
-	u2, err := psim.Listen(context.Background(), n.UpstreamAddr(), "e2", "u-noexp", never, "")
+	u2, err := psim.Listen(context.Background(), n.UpstreamAddr(), "e2", "u-noexp", never, tenant)
 	if err != nil {
 		return err
 	}
